@@ -5,6 +5,7 @@ from coqterm import cbool, cZ, cnat
 
 END = {"cancel": 0, "close": 1}
 PEER = {"drain": 0, "stall": 1}
+STORE = {"": 0, "busy": 1}
 
 
 def _inputs(c):
@@ -16,7 +17,8 @@ def _ok(c):
     if c["k"] == "ws":
         return bool(o.get("cancelled")) and bool(o.get("closed")) and not o.get("panic")
     return (bool(o.get("returned")) and o.get("leak") == 0 and o.get("reg") == 0 and o.get("gconn") == 0
-            and o.get("greq") == 0 and not o.get("panic") and (bool(o.get("fed")) or c.get("peer") == "stall"))
+            and o.get("greq") == 0 and not o.get("panic")
+            and (bool(o.get("fed")) or c.get("peer") == "stall" or c.get("store") == "busy"))
 
 
 class C13(Prop):
@@ -40,7 +42,13 @@ class C13(Prop):
             "(EVENT/REQ/CLOSE/COUNT over 3 subscription ids and the small event universe) is sent completely (the stored "
             "history is already cut); ending cancel with a draining peer 40%, cancel with a peer that stops reading before the "
             "last message 40%, inbound close with a draining peer 20%; the end comes immediately after the last message was "
-            "handed over (60%) or after a 3 ms pause. WebSocket clause: (SendTimeout, PingDuration) from "
+            "handed over (60%) or after a 3 ms pause. About 4% of the sessions run against a busy store: compositions "
+            "with the SQLite handler (alone, or the cmd/mocrelay merge) on a file-backed database with "
+            "EventBulkInsertNum = 1 while a second database connection holds the write lock (BEGIN IMMEDIATE), an "
+            "EVENT-heavy history cut after its T-th EVENT (T = 2 x EventBulkInsertNum + 2 mostly: one in the stalled "
+            "insertion, the hand-over queue full, one hand-over waiting; sometimes fewer, rarely one more), ended by "
+            "cancel with a draining or a stalled peer; the lock is released once the ending has been observed. "
+            "WebSocket clause: (SendTimeout, PingDuration) from "
             "{100,300} ms x {0,20,1000} ms, 3 configurations in the quick tier (incl. ping disabled), all 6 in the thorough "
             "tier, plus the corpus. Model side: the theorems predict 'terminates and releases everything' for every case of "
             "a well-formed composition, so model agreement on session cases = oracle acceptance (stated in Check/C13Check.v); "
@@ -51,6 +59,8 @@ class C13(Prop):
         "utils.go is the computed coverage obligation C13_blocking_points_covered over tables extracted syntactically "
         "(every select with its cases, bare send/receive, range over a channel, WaitGroup.Wait, helper calls, channel "
         "capacities, defers, go statements, close calls) plus the harness runs",
+        "busy store: that BEGIN IMMEDIATE on a second connection stalls the bulk inserter (SQLITE_BUSY, busy timeout and "
+        "back-off of bulkInsertWithRetry) for longer than the 3 s bound is sqlite3/go-sqlite3 behaviour, not checked",
         "goroutine accounting in the harness: runtime.Stack(all) filtered to stacks mentioning the mocrelay module, "
         "baseline taken before the session, 1 s of retries before a leak is declared; 3 s bound for 'returns promptly'",
         "coder/websocket, net/http, database/sql, mattn/go-sqlite3, the Prometheus client (Gather is the observation)",
@@ -83,9 +93,10 @@ class C13(Prop):
         if c["k"] == "ws":
             return "(CWs %s %s %s %s %s)" % (cZ(c["st_ms"]), cZ(c["ping_ms"]), cbool(bool(o.get("cancelled"))),
                                              cbool(bool(o.get("closed"))), pan)
-        return "(CSess %s %s %s %s %s %s %s %s %s %s %s %s %s)" % (
+        return "(CSess %s %s %s %s %s %s %s %s %s %s %s %s %s %s)" % (
             cnat(c["comp"]), cnat(c["mw"]), cnat(len(c.get("hist") or [])), cnat(END.get(c["end"], 0)),
-            cnat(PEER.get(c["peer"], 0)), cbool(bool(c.get("settle"))), cbool(bool(o.get("fed"))),
+            cnat(PEER.get(c["peer"], 0)), cbool(bool(c.get("settle"))), cnat(STORE.get(c.get("store") or "", 2)),
+            cbool(bool(o.get("fed"))),
             cbool(bool(o.get("returned"))), cnat(min(int(o.get("leak", 0)), 4000)), cnat(min(int(o.get("reg", 0)), 4000)),
             cZ(o.get("gconn", 0)), cZ(o.get("greq", 0)), pan)
 
@@ -93,7 +104,7 @@ class C13(Prop):
         if c["k"] == "ws":
             return ["ws", c["st_ms"], c["ping_ms"]]
         return [c["comp"], c["mw"], [m["t"] for m in c.get("hist") or []], c["end"], c["peer"], bool(c.get("settle")),
-                c.get("companion", 0)]
+                c.get("companion", 0), c.get("store") or ""]
 
     def nontrivial_key(self, c):
         # a session case says something when at least one message was in flight or answered
@@ -125,6 +136,16 @@ class C13(Prop):
             cands.append(dict(c, hist=hist[:-1]))
         if c.get("mw"):
             cands.append(dict(c, mw=0))
+        if c.get("store") == "busy":
+            # non-EVENT messages do not fill the hand-over queue; a simpler composition; a free store
+            ev = [m for m in hist if m["t"] == "EVENT"]
+            if len(ev) < n:
+                cands.append(dict(c, hist=ev))
+            if c.get("comp") != 3:
+                cands.append(dict(c, comp=3))
+            c3 = dict(c)
+            c3.pop("store")
+            cands.append(c3)
         seen = set()
         for c2 in cands:
             k = json.dumps(c2, sort_keys=True)
@@ -140,7 +161,8 @@ class C13(Prop):
 
     def distribution(self, cases):
         d = {"sessions": 0, "websocket": 0, "by_composition": {}, "by_stack": {}, "by_ending_peer": {},
-             "history_lengths": {}, "settled": 0, "not_accepted_by_oracle": 0}
+             "history_lengths": {}, "settled": 0, "not_accepted_by_oracle": 0,
+             "busy_store": 0, "busy_store_by_events_sent": {}, "busy_store_input_refused": 0}
         for c in cases:
             if c["k"] == "ws":
                 d["websocket"] += 1
@@ -153,6 +175,12 @@ class C13(Prop):
                 n = str(len(c.get("hist") or []))
                 d["history_lengths"][n] = d["history_lengths"].get(n, 0) + 1
                 d["settled"] += 1 if c.get("settle") else 0
+                if c.get("store") == "busy":
+                    d["busy_store"] += 1
+                    ne = str(sum(1 for m in c.get("hist") or [] if m["t"] == "EVENT"))
+                    d["busy_store_by_events_sent"][ne] = d["busy_store_by_events_sent"].get(ne, 0) + 1
+                    if not (c.get("obs") or {}).get("fed"):
+                        d["busy_store_input_refused"] += 1
             if not _ok(c):
                 d["not_accepted_by_oracle"] += 1
         return d
